@@ -39,7 +39,12 @@ fn main() {
         "C15" => props::c15::run(&mut ctx, &mut report),
         "C21" => props::c21::run(&mut ctx, &mut report),
         "C22" => props::c22::run(&mut ctx, &mut report),
-        "C02" | "C03" | "C04" | "C05" | "C06" | "C07" | "C09" | "C10" | "C19" | "C20" => props::hist::run_property(&prop, &mut ctx, &mut report),
+        "C02" | "C03" | "C04" | "C05" | "C06" | "C07" | "C09" | "C10" | "C19" | "C20" => {
+            props::hist::run_property(&prop, &mut ctx, &mut report);
+            // the per-state mergers and FSMs these properties rest on: component-level correspondence with the model
+            if matches!(prop.as_str(), "C04" | "C07" | "C09" | "C10") { let rule = report.rule.clone(); props::traceops::run(&mut ctx, &mut report); report.rule = format!("{rule} || plus trace-handler operation sequences (see traceops)"); }
+        }
+        "C08" => { props::c08::run(&mut ctx, &mut report); let rule = report.rule.clone(); props::traceops::run(&mut ctx, &mut report); report.rule = rule; }
         "execcorr" => props::execcorr::run(&mut ctx, &mut report),
         "traceops" => props::traceops::run(&mut ctx, &mut report),
         "probe" => props::probe::run(&mut ctx, &mut report),
